@@ -7,7 +7,7 @@ import ast
 from ..cfg import Oracle, build_cfg, guard_atoms
 from ..index import AnalysisError, UNKNOWN, norm, unparse
 from ..report import Ctx
-from ..util import Facts, callee_attr, calls_in_node, cfg_nodes_with_call, feasible_paths
+from ..util import Facts, callee_attr, calls_in_node, cfg_nodes_with_call, feasible_paths, xtext
 from ._chan import GB, send_sites
 
 NONRAISING = {"_geterrortext", "geterrortext"}
@@ -82,47 +82,13 @@ def check_del_notifies(ctx: Ctx, oid: str) -> None:
             ob.require(k >= 1, "__del__: no path for the opened state")
 
 
-def check(ctx: Ctx) -> None:
+def check_transition_complete(ctx: Ctx, oid: str) -> None:
+    """C03.b (also C07.h): both implementations of the closed transition queue ENDMARKER, retire the registry entry
+    (_no_longer_opened on every path, also when the channel object is already gone), set _receiveclosed and _closed"""
     repo = ctx.repo
-    ctx.decides = ("ENDMARKER is put back wherever it is taken; both implementations of the closed transition (Channel.close, "
-                   "ChannelFactory._local_close) queue ENDMARKER, unregister, set _receiveclosed and _closed (not under sendonly); send "
-                   "refuses a closed channel before _send; close is idempotent; executetask closes the channel on every exit; __del__ "
-                   "notifies the peer with the right frame; close frames take the same synchronous send path as data.")
-    ctx.not_decided = "outcomes of close-vs-data races; asynchronous KeyboardInterrupt between two statements is not modelled."
-    ctx.trust("queue.Queue FIFO", "Event semantics")
-    f_recv = repo.func(f"{GB}.Channel.receive")
-    f_setcb = repo.func(f"{GB}.Channel.setcallback")
     f_close = repo.func(f"{GB}.Channel.close")
     f_lclose = repo.func(f"{GB}.ChannelFactory._local_close")
-
-    with ctx.obligation("C03.a", "endmarker-requeue") as ob:
-        n = 0
-        for fi in (f_recv, f_setcb):
-            cfg = build_cfg(repo, fi, Oracle(repo, fi, precise=True))
-            for t in cfg.nodes:
-                if t.kind == "test" and isinstance(t.ast, ast.Compare) and len(t.ast.ops) == 1 and unparse(t.ast.comparators[0]) == "ENDMARKER" \
-                        and isinstance(t.ast.ops[0], (ast.Is, ast.IsNot)) and t.id in cfg.live():
-                    n += 1
-                    var = unparse(t.ast.left)
-                    em_label = "true" if isinstance(t.ast.ops[0], ast.Is) else "false"
-                    puts = cfg_nodes_with_call(cfg, lambda c: callee_attr(c) == "put" and c.args and unparse(c.args[0]) in (var, "ENDMARKER"))
-                    starts = [m for (m, l) in cfg.succ[t.id] if l == em_label]
-                    p = cfg.must_pass(starts, [cfg.exit.id, cfg.raise_exit.id], {x.id for x in puts})
-                    ob.site(fi, t.ast, "ENDMARKER taken from the queue is put back before leaving", puts=[x.line for x in puts])
-                    if p is not None:
-                        ob.violation(fi, t.ast, "ENDMARKER is consumed without being re-queued: a second receiver (or a later receive) would block forever instead of raising EOFError",
-                                     path=cfg.describe_path(p))
-                    # put back on the queue it came from
-                    for x in puts:
-                        for c in calls_in_node(x):
-                            if callee_attr(c) == "put":
-                                q = unparse(c.func.value)
-                                gets = [g for g in repo.calls_in(fi) if callee_attr(g) == "get"]
-                                if not gets or unparse(gets[0].func.value) != q:
-                                    ob.violation(fi, c, "ENDMARKER is re-queued on a different queue than it was taken from")
-        ob.require(n >= 2, f"{n} ENDMARKER test sites (floor 2)")
-
-    with ctx.obligation("C03.b", "transition-complete") as ob:
+    with ctx.obligation(oid, "transition-complete") as ob:
         # -- Channel.close
         from ..util import xtext
         cfg = build_cfg(repo, f_close, Oracle(repo, f_close, precise=True))
@@ -194,6 +160,49 @@ def check(ctx: Ctx) -> None:
             for p in puts:
                 if not isinstance(p.ast, ast.Expr):
                     continue
+
+
+def check(ctx: Ctx) -> None:
+    repo = ctx.repo
+    ctx.decides = ("ENDMARKER is put back wherever it is taken; both implementations of the closed transition (Channel.close, "
+                   "ChannelFactory._local_close) queue ENDMARKER, unregister, set _receiveclosed and _closed (not under sendonly); send "
+                   "refuses a closed channel before _send; close is idempotent; executetask closes the channel on every exit; __del__ "
+                   "notifies the peer with the right frame; close frames take the same synchronous send path as data.")
+    ctx.not_decided = "outcomes of close-vs-data races; asynchronous KeyboardInterrupt between two statements is not modelled."
+    ctx.trust("queue.Queue FIFO", "Event semantics")
+    f_recv = repo.func(f"{GB}.Channel.receive")
+    f_setcb = repo.func(f"{GB}.Channel.setcallback")
+    f_close = repo.func(f"{GB}.Channel.close")
+    f_lclose = repo.func(f"{GB}.ChannelFactory._local_close")
+
+    with ctx.obligation("C03.a", "endmarker-requeue") as ob:
+        n = 0
+        for fi in (f_recv, f_setcb):
+            cfg = build_cfg(repo, fi, Oracle(repo, fi, precise=True))
+            for t in cfg.nodes:
+                if t.kind == "test" and isinstance(t.ast, ast.Compare) and len(t.ast.ops) == 1 and unparse(t.ast.comparators[0]) == "ENDMARKER" \
+                        and isinstance(t.ast.ops[0], (ast.Is, ast.IsNot)) and t.id in cfg.live():
+                    n += 1
+                    var = unparse(t.ast.left)
+                    em_label = "true" if isinstance(t.ast.ops[0], ast.Is) else "false"
+                    puts = cfg_nodes_with_call(cfg, lambda c: callee_attr(c) == "put" and c.args and unparse(c.args[0]) in (var, "ENDMARKER"))
+                    starts = [m for (m, l) in cfg.succ[t.id] if l == em_label]
+                    p = cfg.must_pass(starts, [cfg.exit.id, cfg.raise_exit.id], {x.id for x in puts})
+                    ob.site(fi, t.ast, "ENDMARKER taken from the queue is put back before leaving", puts=[x.line for x in puts])
+                    if p is not None:
+                        ob.violation(fi, t.ast, "ENDMARKER is consumed without being re-queued: a second receiver (or a later receive) would block forever instead of raising EOFError",
+                                     path=cfg.describe_path(p))
+                    # put back on the queue it came from
+                    for x in puts:
+                        for c in calls_in_node(x):
+                            if callee_attr(c) == "put":
+                                q = unparse(c.func.value)
+                                gets = [g for g in repo.calls_in(fi) if callee_attr(g) == "get"]
+                                if not gets or unparse(gets[0].func.value) != q:
+                                    ob.violation(fi, c, "ENDMARKER is re-queued on a different queue than it was taken from")
+        ob.require(n >= 2, f"{n} ENDMARKER test sites (floor 2)")
+
+    check_transition_complete(ctx, "C03.b")
 
     with ctx.obligation("C03.c", "send-refuses-closed") as ob:
         fs = repo.func(f"{GB}.Channel.send")
